@@ -441,6 +441,12 @@ def wrap(x, signed, n_word):
         
     return x
 
+def has_big_int(x):
+    """Returns True if `x` (a number or a nested list/tuple of numbers) holds a Python integer that does not fit in int64."""
+    if isinstance(x, (list, tuple)):
+        return any(has_big_int(v) for v in x)
+    return isinstance(x, int) and not (-2**63 <= x < 2**63)
+
 def scale_raw(val, shift):
     """
     Returns the raw (integer) value(s) `val` multiplied by 2**shift.
